@@ -38,6 +38,8 @@ func main() {
 		for _, id := range ids {
 			fmt.Println(id)
 		}
+	case "renamelocals":
+		os.Exit(renameLocalsMain())
 	case "shuffle":
 		if len(os.Args) < 3 {
 			usage()
